@@ -16,7 +16,7 @@ use std::time::Instant;
 
 pub const VOCAB: &[&str] = &[
     // literals
-    "a", "é", "😀", " ", "\n", "-", ",", "0", "1", "9", "}", "]", "<", ">", "'", "=", "!", ":", "#", "P", "k", "x", "i",
+    "a", "é", "😀", " ", "\n", "\u{a0}", "\u{2028}", "-", ",", "0", "1", "9", "}", "]", "<", ">", "'", "=", "!", ":", "#", "P", "k", "x", "i",
     // operators
     "(", ")", "[", "[^", "|", "*", "+", "?", "{", "{0}", "{1}", "{2}", "{0,0}", "{1,2}", "{2,}", "{,2}", ".", "^", "$", "\\",
     // group openers
